@@ -197,6 +197,19 @@ example : sortObjs [.net ⟨4, 5, 24⟩, .addr ⟨4, 0⟩, .net ⟨4, 0, 8⟩, .
   rw [sorted_perm_invariant _ [.net ⟨4, 0, 8⟩, .net ⟨4, 5, 24⟩, .addr ⟨4, 0⟩, .addr ⟨6, 0⟩] (by decide) (by decide)]
   exact List.mergeSort_of_pairwise (by decide)
 
+/-- why the statement is about addresses and networks: two different ranges can tie in the sort
+    order (`sort_key` only keeps the bit length of the size), and then `sorted()` — a stable
+    sort — keeps their input order -/
+theorem sorted_ranges_can_tie :
+    le (.rng ⟨4, 0, 4⟩) (.rng ⟨4, 0, 5⟩) = true ∧ le (.rng ⟨4, 0, 5⟩) (.rng ⟨4, 0, 4⟩) = true ∧
+    sortObjs [.rng ⟨4, 0, 4⟩, .rng ⟨4, 0, 5⟩] ≠ sortObjs [.rng ⟨4, 0, 5⟩, .rng ⟨4, 0, 4⟩] := by
+  refine ⟨by decide, by decide, ?_⟩
+  have h1 : sortObjs [.rng ⟨4, 0, 4⟩, .rng ⟨4, 0, 5⟩] = [.rng ⟨4, 0, 4⟩, .rng ⟨4, 0, 5⟩] :=
+    List.mergeSort_of_pairwise (by decide)
+  have h2 : sortObjs [.rng ⟨4, 0, 5⟩, .rng ⟨4, 0, 4⟩] = [.rng ⟨4, 0, 5⟩, .rng ⟨4, 0, 4⟩] :=
+    List.mergeSort_of_pairwise (by decide)
+  rw [h1, h2]; decide
+
 /-! ### pickle / copy / deepcopy -/
 
 /-- IPAddress: under copy, deepcopy and every pickle protocol the rebuilt object is the same
